@@ -5,6 +5,7 @@ import subprocess
 import core
 import gens
 import enc_side as E
+import gen_smiles
 from core import S, U, sf, call, drv
 from p_c14 import load_smiles
 
@@ -31,7 +32,12 @@ def work(chunk, extra):
     out = []
     for job in chunk:
         serial = runner(dict(job, threads=0))
-        conc = runner(dict(job, threads=8, rounds=2))
+        if job.get('same'):
+            conc = runner(dict(job, threads=8))
+            conc = {'results': [next((x for x in per if x != serial[i]), per[0]) for i, per in enumerate(conc['per_thread'])], 'unstable': []} \
+                if isinstance(conc, dict) and 'per_thread' in conc and isinstance(serial, list) else conc
+        else:
+            conc = runner(dict(job, threads=8, rounds=2))
         # the model: every call alone
         tb = core.T(job['table'])
         model = []
@@ -66,6 +72,13 @@ def run(rep, tier, seed, b):
             else:
                 calls.append(['enc', rng.choice(smiles), rng.random() < 0.5])
         jobs.append({'table': tabs[j % len(tabs)], 'calls': calls})
+    # the SAME call made by all threads at once, on inputs that exercise per-input work for the first time in the process
+    arom = E.gen_smiles_cases(rng, 150 if tier == 'quick' else 3000, mutate=0.1, aromatic_only=True, maxlen=80) + E.ring_symbol_cases(rng, 30) + list(E.FUSED) + fused_respellings(rng, 120 if tier == 'quick' else 3000)
+    for j in range(4 if tier == 'quick' else 60):
+        rng.shuffle(arom)
+        calls = [['enc', x, rng.random() < 0.5] for x in arom[:160]] + [['dec', rng.choice(gens.ATOMS_RICH) + gens.live_selfies(rng, maxlen=25, rich=0.4)] for _ in range(60)]
+        rng.shuffle(calls)
+        jobs.append({'table': tabs[j % len(tabs)], 'calls': calls, 'same': True})
     res = core.pmap('p_c19', 'work', jobs, chunk=1, procs=min(core.NPROC, 6))
     for job, (serial, conc, model) in zip(jobs, res):
         rep.evaluations += len(job['calls'])
@@ -78,7 +91,7 @@ def run(rep, tier, seed, b):
                 rep.disagreements.append({'op': 'serial call', 'input': {'table': job['table'], 'call': c}, 'impl': serial[i], 'model': model[i]})
             if conc['results'][i] != serial[i]:
                 rep.oracle_failures.append({'clause': 'a call running concurrently with others returns what it returns when run alone',
-                                            'input': {'table': job['table'], 'calls': job['calls'], 'index': i}, 'impl': [serial[i], conc['results'][i]]})
+                                            'input': {'table': job['table'], 'calls': job['calls'], 'index': i, 'same': bool(job.get('same'))}, 'impl': [serial[i], conc['results'][i]]})
             if 'ok' in serial[i] and len(c[1]) > 12:
                 rep.nontriv(json.dumps(c))
         for u in conc.get('unstable', []):
@@ -87,8 +100,45 @@ def run(rep, tier, seed, b):
     rep.sample({'table': jobs[0]['table'], 'first_calls': jobs[0]['calls'][:4], 'threads': 8, 'switch_interval': 1e-6})
     rep.extra['jobs'] = len(jobs)
     rep.rule = ('%d stress jobs in fresh interpreters: 400 (quick) / 1500 (thorough) mixed decoder / encoder calls sharing rare symbols, run serially in one fresh process and on 8 threads '
-                '(1 microsecond switch interval, cold caches, two rounds) in another; every call compared with the serial run, with itself across rounds, and the serial run with the model. '
+                '(1 microsecond switch interval, cold caches, two rounds) in another; every call compared with the serial run, with itself across rounds, and the serial run with the model; plus jobs in which each call (aromatic molecules first seen by the process, rare symbols) '
+                'is made by all 8 threads at the same moment. '
                 'non-trivial = distinct accepted call longer than 12 characters' % len(jobs))
+
+
+def fused_respellings(rng, n):
+    """polycyclic aromatic systems written in random atom orders: the kekulisation's first (greedy) matching is then often not perfect"""
+    out = []
+    pool = [x for x in load_smiles() if len(x) < 90 and sum(x.count(c) for c in 'cn') >= 9] + list(E.FUSED) * 20
+    while len(out) < n:
+        m = E.mol_of(rng.choice(pool))
+        if m is None:
+            continue
+        x, _ = gen_smiles.respell(m, rng, shuffle=True, digits_after_branches=0.2)
+        out.append(x)
+    return out
+
+
+def search(rep, tier, seed, b, new_dis):
+    """the proof or the footprint no longer checks: look harder for a race (all threads making the same first-seen call)"""
+    rng = core.rng_for(seed + 7919, ID)
+    s_ = sf()
+    jobs = []
+    for j in range(10 if tier == 'quick' else 60):
+        xs = fused_respellings(rng, 250)
+        calls = [['enc', x, False] for x in xs] + [['dec', rng.choice(gens.ATOMS_RICH) + gens.live_selfies(rng, maxlen=25, rich=0.5)] for _ in range(50)]
+        rng.shuffle(calls)
+        jobs.append({'table': E.relaxed_table() if j % 2 else s_.get_preset_constraints('default'), 'calls': calls, 'same': True})
+    res = core.pmap('p_c19', 'work', jobs, chunk=1, procs=min(core.NPROC, 8))
+    for job, (serial, conc, model) in zip(jobs, res):
+        rep.evaluations += len(job['calls'])
+        rep.impl_traces += 2 * len(job['calls'])
+        if not isinstance(serial, list) or not isinstance(conc, dict) or 'results' not in conc:
+            continue
+        for i, c in enumerate(job['calls']):
+            if conc['results'][i] != serial[i]:
+                rep.oracle_failures.append({'clause': 'a call running concurrently with others returns what it returns when run alone',
+                                            'input': {'table': job['table'], 'calls': [c], 'index': 0, 'same': True, 'found_in_job_of': len(job['calls'])},
+                                            'impl': [serial[i], conc['results'][i]]})
 
 
 def known(f):
@@ -101,7 +151,11 @@ def replay(data):
     serial = runner(dict(job, threads=0))
     fails = False
     for _ in range(5):
-        conc = runner(dict(job, threads=8, rounds=2))
+        if i.get('same'):
+            conc = runner(dict(job, threads=8, same=True))
+            conc = {'results': [next((x for x in per if x != serial[k]), per[0]) for k, per in enumerate(conc.get('per_thread', []))]}
+        else:
+            conc = runner(dict(job, threads=8, rounds=2))
         if conc.get('results') != serial or conc.get('unstable'):
             fails = True
             break
